@@ -726,6 +726,17 @@ def gen_sound(tier, seed, env_text, pid=None):
             ["int", "float", "bool", "NoneType", "bytes", "mtfx.shapes.A", "mtfx.shapes.B", "mtfx.shapes.C", "mtfx.shapes.D",
              "mtfx.shapes.E", "mtfx.shapes.X1", "mtfx.shapes.X2", "mtfx.shapes.Y1", "mtfx.shapes.Y2", "mtfx.shapes.MyList"],
             rng.randint(3, 8))] for _ in range(40 if q else 1000)], [0], ["DEFAULT", "RLU2", "MSCB", "RLU5"], [""])
+    # None observed next to more alternatives than a union may have - alternatives that have a common base class, or are
+    # homogeneous tuples of several lengths - at a parameter WITHOUT a None default, as a return value and as a yielded value
+    fam6 = [A("mtfx.shapes.A"), A("mtfx.shapes.B"), A("mtfx.shapes.C"), A("mtfx.shapes.D"), A("mtfx.shapes.B2"), A("mtfx.shapes.B3")]
+    tup6 = [C("tuple", *([A("int")] * n)) for n in range(1, 7)]
+    for alts in (fam6, tup6, fam6[:5] + [A("NoneType")], tup6[:5] + [C("tuple")]):
+        full = alts + [A("NoneType")]
+        for rot in range(len(full)):
+            seq = full[rot:] + full[:rot]
+            add("None next to more alternatives than a union may have (common base / homogeneous tuples), rotation %d" % rot,
+                [[mk_call("f0", [x, A("int")], x) for x in seq], [{"f": "g0", "args": [A("int")], "ret": A("NoneType"), "ys": seq}]],
+                [0], ["DEFAULT", "RLU5", "RLU2"], [""])
     # application classes NAMED like builtins, hidden builtin types or typing constructs (a "not given" sentinel class called
     # NoneType, a project's own frozenset / Warning / List), next to the real thing at the same position
     # (classes named like TYPING names collide with the stub's own `from typing import ...`: C11's recorded finding, not repeated here)
